@@ -31,7 +31,7 @@ Print Assumptions C32_unfixed_refuted.
 Theorem C32_safe_refuted :
   exists size progs sched,
     let g := run (tstep true) (init size progs) sched in
-    g_tracked g = [6; 2] /\ g_done g = 2 /\ safe_b g = false.
+    g_tracked g = [(6, 1%nat); (2, 0%nat)] /\ g_done g = 2 /\ safe_b g = false.
 Proof. exact watermark_safe_refuted. Qed.
 Print Assumptions C32_safe_refuted.
 
